@@ -158,7 +158,55 @@ def wire_dist(rs):
         d["sent" if o == "sent" else "err_invalid_method" if o == "err-invalid-method" else "panic"] += 1
     return d
 
+def st_nontrivial(r):
+    t = r["input"].split()
+    return len(t) > 8
+
+def st_dist(rs):
+    d = {"script": 0, "pipe_mem": 0, "pipe_kernel": 0, "with_rewind": 0, "with_wrapper": 0, "with_bridge": 0, "vectored": 0,
+         "zero_cap_read": 0, "pending": 0, "error": 0, "eof_seen": 0, "shutdown_ops": 0, "short_write": 0}
+    for r in rs:
+        t = r["input"].split()
+        if t[1] == "script":
+            d["script"] += 1
+            layers = t[2:t.index(";")]
+            d["with_rewind"] += any(l.startswith("R") for l in layers)
+            d["with_wrapper"] += "W" in layers
+            d["with_bridge"] += "B" in layers
+        else:
+            d["pipe_kernel" if int(t[2]) >= 4 else "pipe_mem"] += 1
+        ops = t[len(t) - 1 - t[::-1].index(";") + 1:]
+        d["vectored"] += any(o.startswith("v") for o in ops)
+        d["zero_cap_read"] += any(o in ("r0",) for o in ops)
+        d["shutdown_ops"] += any(o.endswith("s") and len(o) <= 2 for o in ops)
+        o = r["obs"].split()
+        d["pending"] += "P" in o
+        d["error"] += "E" in o
+        d["eof_seen"] += "b-" in o
+        d["short_write"] += any(x.startswith("n") for x in o)
+    return d
+
 PROPS = {
+    "C18": {
+        "props_module": "HdModel.Props.C18",
+        "class_prefix": ["C18/", "C08/bytes-altered"],
+        "theorems": ["Hd.Streams.C18_read_fifo", "Hd.Streams.C18_read_prefix", "Hd.Streams.C18_write_forward",
+                     "Hd.Streams.C18_flush_shutdown_forwarded", "Hd.Streams.C18_run_spec", "Hd.Streams.C18_pipe_fifo",
+                     "Hd.Streams.C18_pipe_progress", "Hd.Sniff.C18_rewind_fifo", "Hd.Sniff.rewindRead_prefix_first"],
+        "streams": [
+            {"name": "st", "quick": 6000, "thorough": 200000, "head": 1, "unit": 1, "nontrivial": st_nontrivial, "distribution": st_dist},
+            {"name": "sniff", "quick": 3000, "thorough": 100000, "head": 1, "unit": 1, "nontrivial": sniff_nontrivial, "distribution": sniff_dist},
+        ],
+        "rule": "op sequences (read with capacity 0..64 and pre-filled buffers, write, vectored write, flush, shutdown) on run-time "
+                "composed stacks of the real adapters (client Stream, server Stream, TokioIo both directions, Rewind) over a scripted "
+                "inner io (short reads/writes, Pending, errors, EOF), and on real pipes (DuplexStream, Braid, client/server Stream, "
+                "bridged, unix socketpair, tcp loopback) with capacities 1..64, compared with the model and a reference FIFO; plus the "
+                "sniff stream for Rewind behind ReadVersion. non-trivial = at least 3 operations",
+        "assumes": ["tokio::io::duplex semantics (bounded buffer, Pending when full/empty, EOF after shutdown) - modelled as Pipe, assumed",
+                    "kernel sockets may deliver short reads: compared with the FIFO specification only",
+                    "memory safety of the unsafe ReadBuf bookkeeping is not modelled (only byte counts and contents)",
+                    "TLS streams (rustls) are exercised by the C12 stream, not here"],
+    },
     "C13": {
         "props_module": "HdModel.Props.C13",
         "class_prefix": ["C13/"],
